@@ -491,6 +491,10 @@ func scenario(rec *mon.Recorder, c int) {
 	// apply loop finishes before the caller starts waiting (forced), and with
 	// many concurrent callers
 	runCallers := func(phase string, callers, rounds int) {
+		phaseBase := 0
+		if phase == "concurrent" {
+			phaseBase = 20000
+		}
 		var wg sync.WaitGroup
 		for g := 0; g < callers; g++ {
 			wg.Add(1)
@@ -527,6 +531,63 @@ func scenario(rec *mon.Recorder, c int) {
 								sym = "caller:outcome-lost"
 							}
 							fail(sym+":"+phase, fmt.Sprintf("caller %d %s(%s) got %q want %q after %v", g, s.name, id, got, s.want, time.Since(t0).Round(time.Millisecond)))
+							return
+						}
+					}
+					// batch forms: the error map a caller gets names exactly its own failing ids, whatever
+					// other callers' batches are applied on the same partition meanwhile
+					base := c*100000 + 50000 + phaseBase + (g*rounds+r)*3
+					a, b, x := hx.Id(base), hx.Id(base+1), hx.Id(base+2)
+					item := func(id uuid.UUID) *pb.BatchItem {
+						return &pb.BatchItem{Id: id.Bytes(), Value: []float32{float32(g), 5, 6}, Metadata: map[string]string{"g": fmt.Sprint(g)}}
+					}
+					exists, missing := index.ItemAlreadyExistsError.Error(), index.ItemNotFoundError.Error()
+					bsteps := []struct {
+						name  string
+						items []uuid.UUID
+						want  map[uuid.UUID]string
+					}{
+						{"batch-insert", []uuid.UUID{a, b}, map[uuid.UUID]string{}},
+						{"batch-insert", []uuid.UUID{a, b}, map[uuid.UUID]string{a: exists, b: exists}},
+						{"batch-update", []uuid.UUID{a, x}, map[uuid.UUID]string{x: missing}},
+						{"batch-remove", []uuid.UUID{a, b, x}, map[uuid.UUID]string{x: missing}},
+						{"batch-remove", []uuid.UUID{a, b}, map[uuid.UUID]string{a: missing, b: missing}},
+					}
+					for _, s := range bsteps {
+						var items []*pb.BatchItem
+						for _, id := range s.items {
+							items = append(items, item(id))
+						}
+						cctx, cancel := context.WithTimeout(ctx, 9*time.Second)
+						var errs map[uuid.UUID]error
+						var err error
+						switch s.name {
+						case "batch-insert":
+							errs, err = d.BatchInsert(cctx, items)
+						case "batch-update":
+							errs, err = d.BatchUpdate(cctx, items)
+						default:
+							errs, err = d.BatchRemove(cctx, items)
+						}
+						cancel()
+						rec.Count("caller_outcomes_checked", 1)
+						rec.Count("caller_batch_outcomes_checked", 1)
+						if err != nil {
+							sym := "caller:wrong-outcome"
+							if stringsContain(err.Error(), "deadline exceeded") {
+								sym = "caller:outcome-lost"
+							}
+							fail(sym+":"+phase, fmt.Sprintf("caller %d %s failed as a whole: %v", g, s.name, err))
+							return
+						}
+						bad := len(errs) != len(s.want)
+						for id, w := range s.want {
+							if e, ok := errs[id]; !ok || e == nil || !stringsContain(e.Error(), w) {
+								bad = true
+							}
+						}
+						if bad {
+							fail("caller:wrong-batch-outcome:"+phase, fmt.Sprintf("caller %d %s of its own ids %v got error map %v want %v", g, s.name, s.items, errs, s.want))
 							return
 						}
 					}
